@@ -92,6 +92,7 @@ def coq_scan():
     bad = []
     for f in tree_files(COQ, ['.'], {'.v'}):
         src = open(f).read()
+        src = re.sub(r'"(?:[^"]|"")*"', '""', src)      # string literals (the embedded name table) are data, not vernacular
         src = re.sub(r'\(\*.*?\*\)', ' ', src, flags=re.S)
         for m in FORBIDDEN.finditer(src):
             w = m.group(1)
@@ -645,6 +646,7 @@ def run_s6(seed, tier, log):
     def fail(cid, what, detail):
         props.append({'id': cid, 'prop': 'C13', 'detail': detail})
         specs[cid] = what
+    fronts = []      # (case id, what was run, vector id or case line, bytes written/returned): the single-output oracles run over these
     vecs = gen_s6_vectors(seed, tier)
     vecs.append(dict(id='freg', protocol='2', seed=3, min=None, max=None, mutators=['bitflip'], rate=None, unsafe=0, ext=0, buf=0))
     vp = os.path.join(tmp, 'vectors.txt')
@@ -672,6 +674,7 @@ def run_s6(seed, tier, log):
             fail(v['id'], what, 'exit status %d: %s' % (q.returncode, q.stderr.decode()[-200:]))
             continue
         got = open(out, 'rb').read()
+        fronts.append((v['id'], what, v['id'], got))
         if expect.get(v['id']) is None:
             fail(v['id'], what, 'the library call for the configuration computed by the model did not return a pickle')
         elif got != expect[v['id']]:
@@ -692,6 +695,8 @@ def run_s6(seed, tier, log):
             elif files != want:
                 fail(v['id'] + '-batch', what, 'files written: %s, expected %s' % (files, want))
             else:
+                for f in files:
+                    fronts.append((v['id'] + '-batch', what + ' [' + f + ']', v['id'], open(os.path.join(dd, f), 'rb').read()))
                 for f in files:
                     if open(os.path.join(dd, f), 'rb').read() != expect.get(v['id']):
                         fail(v['id'] + '-batch', what, 'file %s differs from the library bytes' % f)
@@ -723,11 +728,16 @@ def run_s6(seed, tier, log):
             fail(v['id'] + '-action', what, 'exit status %d: %s' % (q.returncode, q.stderr.decode()[-200:]))
         elif open(out, 'rb').read() != expect.get(v['id']):
             fail(v['id'] + '-action', what, 'file bytes differ from the library bytes')
+        if os.path.exists(out):
+            fronts.append((v['id'] + '-action', what, v['id'], open(out, 'rb').read()))
         dd = os.path.join(tmp, 'actd_%s' % v['id'])
         q = subprocess.run(['bash', script], stdout=subprocess.PIPE, stderr=subprocess.PIPE, timeout=300,
                            env=dict({k: x for k, x in envb.items() if not k.startswith('INPUT_')}, **vec_env(v, out_dir=dd, samples=2)))
         nrun += 1
         files = sorted(os.listdir(dd)) if os.path.isdir(dd) else []
+        for f in files:
+            if os.path.isfile(os.path.join(dd, f)):
+                fronts.append((v['id'] + '-action-dir', what.replace('FILE', 'DIR') + ' [' + f + ']', v['id'], open(os.path.join(dd, f), 'rb').read()))
         if q.returncode != 0 or files != ['0.pkl', '1.pkl'] or any(open(os.path.join(dd, f), 'rb').read() != expect.get(v['id']) for f in files):
             fail(v['id'] + '-action-dir', what.replace('FILE', 'DIR'), 'exit %d, files %s (or contents differ from the library)' % (q.returncode, files))
         shutil.rmtree(dd, ignore_errors=True)
@@ -810,14 +820,36 @@ json.dump(out, sys.stdout)
                 sq['protocol'], sq['seed'], '; set_opcode_range%s' % (tuple(sq['range']),) if sq['range'] else '',
                 '; '.join('generate()' if c[0] == 'g' else 'generate_from_bytes(%s)' % c[1] if c[0] == 'b' else 'PickleMutator.mutate(%s, %d)' % (c[1], c[2]) for c in sq['calls']))
             for k_, c in enumerate(sq['calls']):
+                if c[0] != 'm':
+                    fronts.append((sq['id'], what + ' [call %d]' % k_, hist_cases[int(sq['id'][1:])].split(' hist=')[0], bytes.fromhex(got[sq['id']][k_])))
+            for k_, c in enumerate(sq['calls']):
                 e = exp_h.get(sq['id'], [])[k_] if k_ < len(exp_h.get(sq['id'], [])) else None
                 if c[0] == 'm' and e is not None:
                     e = e[:c[2]]
                 if e is None or bytes.fromhex(got[sq['id']][k_]) != e:
                     fail(sq['id'], what, 'call %d returns %s..., the library %s...' % (k_, got[sq['id']][k_][:32], (e or b'').hex()[:32]))
                     break
+    # the statements about one output alone (C01-C06, C10, C11: extracted oracles) on what the FRONT ENDS wrote, under the
+    # configuration the options denote (Front.cli_config): a flag that a front end mis-forwards shows here under its own property
+    cfg_of = dict((re.search(r'\bid=(\S+)', c).group(1), c) for c in cases)
+    op = os.path.join(tmp, 'front_outputs.txt')
+    with open(op, 'w') as f:
+        for k_, (cid, what, vid, got) in enumerate(fronts):
+            line = cfg_of.get(vid, vid if ' v=' in vid else None)
+            if line is None or not got:
+                continue
+            fid = 'f%d:%s' % (k_, cid)
+            f.write('CASE %s\nRESULT ok %s\nEND\n' % (re.sub(r'\bid=\S+', 'id=' + fid, line, 1), got.hex()))
+            specs[fid] = what
+    shards = shard_trace(op, 16)
+    procs = [subprocess.Popen([DRIVER, 'oracles', s_], stdout=subprocess.PIPE, stderr=subprocess.STDOUT, text=True, env=ENV) for s_ in shards]
+    outs = [q.communicate(timeout=3000)[0] for q in procs]
+    n13 = len(props)
+    for pr in parse_verdicts('\n'.join(outs))['props']:
+        pr['detail'] += ' (output of a front end, judged under the configuration its options denote)'
+        props.append(pr)
     shutil.rmtree(tmp, ignore_errors=True)
-    res = dict(ok=[], diffs=[], props=props, stats={}, ncases=nrun, okn=nrun - len(props), nops=nrun, specs=specs,
+    res = dict(ok=[], diffs=[], props=props, stats={}, ncases=nrun, okn=nrun - n13, nops=nrun, specs=specs, front_outputs_judged=len(fronts),
                samples=['pickle-fuzzer ' + ' '.join(vec_argv(vecs[0])) + ' FILE', 'pickle-fuzzer ' + ' '.join(vec_argv(vecs[1])) + ' FILE'])
     json.dump(res, open(res_path, 'w'))
     log('s6: %d front-end executions (cli single/batch, action wrapper, python), %d differ from the library, %.1fs' % (nrun, len(props), time.time() - t0))
